@@ -771,7 +771,7 @@ func TestCheck(t *testing.T) {
 	}
 	if thorough {
 		for _, s := range exportScripts(e, "MC_tamper_scripts3.cfg") {
-			if len(s.Ops) == 3 && rng.Intn(30) == 0 {
+			if len(s.Ops) == 3 && rng.Intn(10) == 0 {
 				scripts = append(scripts, s)
 			}
 		}
@@ -830,6 +830,7 @@ func TestCheck(t *testing.T) {
 	e.Set("checker_cmd", mc.Cmd)
 	e.Set("drift", drift > 0)
 	e.Set("drift_runs", drift)
+	e.Set("drift_note", "drift = the real terminal class / released byte count differs from the symbolic model's prediction while the Contract still holds; the expected source is a bit flip in the unused trailing bits of the base64 MAC, which Go's lenient decoder ignores (the document then decrypts to exactly the original plaintext)")
 	if len(driftSamples) > 0 {
 		e.Set("drift_samples", driftSamples)
 	}
